@@ -242,9 +242,8 @@ def sumDoubles : List D → D
   | [x] => x
   | x :: y :: rest => D.add x (sumDoubles (y :: rest))
 
-/-- The summation of xs:double values is a parameter of the specification: `foSum` is the
-definition of F&O §14.4.5; `pySum` is CPython's compensated summation, which elementpath uses
-(known finding F08q: the two differ where the roundings of the individual additions matter). -/
+/-- The summation of xs:double values is a parameter of the specification; `foSum` is the
+definition of F&O §14.4.5 and the only instance in use (elementpath follows it since fix F08q). -/
 structure Summation where
   sumD : List D → D        -- the sum of the promoted values (at least one value)
   avgD : Seq → D           -- the sum of a numeric sequence that contains an xs:double, for fn:avg
@@ -252,13 +251,56 @@ structure Summation where
 def foSum : Summation :=
   { sumD := sumDoubles, avgD := fun s => sumDoubles (s.map toDouble) }
 
-def pySum : Summation :=
-  { sumD := neumaierSum, avgD := fun s => avgSum (s.map fun a => if a.isDec then Atom.dbl a.toD else a) }
+/-- the cast of an xs:untypedAtomic value to xs:double (F&O §19.1.2.2: the lexical space of
+xs:double after whitespace collapse; FORG0001 otherwise) -/
+def castDouble (s : String) : Except Err D :=
+  match lexDouble s with
+  | some d => .ok d
+  | none => .error .FORG0001
+
+/-- "Values of type xs:untypedAtomic are cast to xs:double" (§14.4.2–§14.4.5), items in order -/
+def castUntyped : Seq → Except Err Seq
+  | [] => .ok []
+  | .untyped t :: rest => do
+    let d ← castDouble t
+    let r ← castUntyped rest
+    pure (.dbl d :: r)
+  | a :: rest => do
+    let r ← castUntyped rest
+    pure (a :: r)
+
+/-- fn:sum applied to nodes: their typed values (xs:untypedAtomic) are cast to xs:double.  A node
+whose string value is not in the lexical space of xs:double must give FORG0001; elementpath
+raises FORG0006 there (known finding F08u), the case is outside the modelled fragment. -/
+def castNodes (doc : List String) : Seq → Except Err Seq
+  | [] => .ok []
+  | .node i :: rest =>
+    match lexDouble (doc.getD i "") with
+    | none => .error .UNSUPPORTED
+    | some d => do
+      let r ← castNodes doc rest
+      pure (.dbl d :: r)
+  | a :: rest => do
+    let r ← castNodes doc rest
+    pure (a :: r)
+
+/-- fn:avg on the atomized sequence, in item order: xs:untypedAtomic is cast, an xs:boolean is
+not a numeric value (FORG0006) -/
+def avgItems : Seq → Except Err Seq
+  | [] => .ok []
+  | .untyped t :: rest => do
+    let d ← castDouble t
+    let r ← avgItems rest
+    pure (.dbl d :: r)
+  | .bool _ :: _ => .error .FORG0006
+  | a :: rest => do
+    let r ← avgItems rest
+    pure (a :: r)
 
 /-- §14.4.5 fn:sum: empty → `$zero` (default 0); all values must be numeric (FORG0006
 otherwise); one value → that value; integers / decimals add exactly, otherwise all values are
 promoted to xs:double -/
-def fnSum (sm : Summation) (s : Seq) (zero : Option Seq) : R :=
+def sumCore (sm : Summation) (s : Seq) (zero : Option Seq) : R :=
   if outsideAgg s then .error .UNSUPPORTED else
   match s with
   | [] => match zero with
@@ -276,7 +318,7 @@ def fnSum (sm : Summation) (s : Seq) (zero : Option Seq) : R :=
 /-- §14.4.2 fn:avg = sum divided by count; xs:decimal division is rounded to 28 significant
 digits (the precision is implementation-defined), xs:double division is IEEE; an integral mean
 of integers is delivered as xs:integer -/
-def fnAvg (sm : Summation) (s : Seq) : R :=
+def avgCore (sm : Summation) (s : Seq) : R :=
   if outsideAgg s then .error .UNSUPPORTED else
   match s with
   | [] => .ok []
@@ -294,7 +336,7 @@ Numeric values: the greatest / least value; it is delivered as xs:double as soon
 occurs (NaN if any value is NaN).  F&O converts every value to xs:double before comparing;
 IEEE rounding is monotone, so the converted extremum is the conversion of the exact extremum,
 which is what is specified here. -/
-def fnMinMax (isMax : Bool) (s : Seq) : R :=
+def minMaxCore (isMax : Bool) (s : Seq) : R :=
   if outsideAgg s then .error .UNSUPPORTED else
   match s with
   | [] => .ok []
@@ -309,6 +351,14 @@ def fnMinMax (isMax : Bool) (s : Seq) : R :=
         else .ok [.dbl (toDouble (extremum (fun x y => XV.lt (exact x) (exact y)) isMax a rest))]
       else .ok [extremum (fun x y => XV.lt (exact x) (exact y)) isMax a rest]
     else .error .FORG0006
+
+/-- fn:sum / fn:avg / fn:max / fn:min on arbitrary items: untyped values and nodes are cast first -/
+def fnSum (sm : Summation) (doc : List String) (s : Seq) (zero : Option Seq) : R :=
+  ((castUntyped s).bind (castNodes doc)).bind fun v => sumCore sm v zero
+def fnAvg (sm : Summation) (doc : List String) (s : Seq) : R :=
+  (avgItems (s.map (atomized doc))).bind (avgCore sm)
+def fnMinMax (doc : List String) (isMax : Bool) (s : Seq) : R :=
+  (castUntyped (s.map (atomized doc))).bind (minMaxCore isMax)
 
 /-- the string value of an item (only the lexical forms the model covers) -/
 def stringOf? (doc : List String) : Atom → Option String
@@ -349,12 +399,12 @@ def asInteger : Seq → Except Err Int
   | [.node _] => .error .UNSUPPORTED
   | _ => .error .XPTY0004
 
-/-- `fn:round` of an `xs:double` parameter (integers are promoted; xs:decimal, xs:untypedAtomic
-and node arguments are outside the modelled fragment) -/
+/-- `fn:round` of an `xs:double` parameter (xs:integer and xs:decimal arguments are promoted first;
+xs:untypedAtomic and node arguments are outside the modelled fragment) -/
 def asRoundedDouble : Seq → Except Err D
   | [.int n] => .ok (roundD (D.ofInt n))
   | [.dbl d] => .ok (roundD d)
-  | [.dec _ _] => .error .UNSUPPORTED
+  | [.dec m k] => .ok (roundD (rnd m (10 ^ k)))
   | [.untyped _] => .error .UNSUPPORTED
   | [.node _] => .error .UNSUPPORTED
   | _ => .error .XPTY0004
@@ -365,14 +415,11 @@ def subsequence2R {α : Type} (xs : List α) (s : D) : List α :=
 def subsequence3R {α : Type} (xs : List α) (s l : D) : List α :=
   filterPos (fun i => leD s (ofPos i) && ltD (ofPos i) (D.add s l)) xs
 
-/-- CPython's compensated summation gives the F&O sum (trigger of finding F08q when false) -/
-def sumAgrees (s : Seq) : Bool := decide (pySum.sumD (s.map toDouble) = foSum.sumD (s.map toDouble))
-def avgAgrees (s : Seq) : Bool := decide (pySum.avgD s = foSum.avgD s)
-
-/-- trigger of finding F08t: an xs:integer outside the range of xs:double has to be promoted
-(the specification promotes it to ±INF; `float(int)` raises OverflowError) -/
-def hugeIntPromoted (s : Seq) : Bool :=
-  anyDouble s && s.any fun a => match a with | .int n => decide (n.natAbs ≥ 2 ^ 1024) | _ => false
+/-- trigger of finding F08u: fn:sum over a node whose string value is not a valid xs:double (and no
+invalid xs:untypedAtomic item, whose FORG0001 comes first) -/
+def sumNodeInvalid (doc : List String) (s : Seq) : Bool :=
+  (match castUntyped s with | .ok _ => true | .error _ => false) &&
+  s.any fun a => match a with | .node i => (lexDouble (doc.getD i "")).isNone | _ => false
 
 def applyFn1 (sm : Summation) (doc : List String) (f : Fn1) (v : Seq) : R :=
   match f with
@@ -385,10 +432,10 @@ def applyFn1 (sm : Summation) (doc : List String) (f : Fn1) (v : Seq) : R :=
   | .zeroOrOne => zeroOrOne v
   | .oneOrMore => oneOrMore v
   | .exactlyOne => exactlyOne v
-  | .sum => fnSum sm v none
-  | .avg => fnAvg sm v
-  | .min => fnMinMax false v
-  | .max => fnMinMax true v
+  | .sum => fnSum sm doc v none
+  | .avg => fnAvg sm doc v
+  | .min => fnMinMax doc false v
+  | .max => fnMinMax doc true v
   | .distinct => .ok (distinctValues (v.map (atomized doc)))
   | .stringJoin => fnStringJoin doc v none
   | .not_ => (ebv v).map fun b => [.bool (!b)]
@@ -403,7 +450,7 @@ def applyFn2 (sm : Summation) (doc : List String) (f : Fn2) (va vb : Seq) : R :=
     | _ => .error .XPTY0004
   | .subseq => (asRoundedDouble vb).map fun s => subsequence2R va s
   | .stringJoin => fnStringJoin doc va (some vb)
-  | .sum => fnSum sm va (some vb)
+  | .sum => fnSum sm doc va (some vb)
 
 def applyFn3 (f : Fn3) (va vb vc : Seq) : R :=
   match f with
